@@ -1556,6 +1556,8 @@ class Engine:
             if name.startswith('LOG.') or name.startswith('textwrap.') or name in ('repr', 'str', 'print') \
                     or name.startswith('warnings.'):
                 return [(st, OpaqueStrV())]
+            if name == 'type' and len(args) == 1:
+                return [(st, OpaqueV('type-of-a-value'))]       # only ever used inside messages
             raise Unsupported('builtin %s' % name)
         return m(args, kwargs, st, node)
 
@@ -1597,6 +1599,12 @@ class Engine:
 
     def isinstance_kind(self, v, cname, st):
         """python bool or None (unknown)."""
+        if cname == 'Iterable':        # typing.Iterable / collections.abc.Iterable: has __iter__
+            if isinstance(v, (IntV, BoolV, NoneV, RealV, FnV, ClosureV)):
+                return False
+            if isinstance(v, (KeyV, StrV, TupleV, SymSeqV, ListV, DSTupleV, DSRefV, StageV, DictV, SymDictV, SetV, RangeV)):
+                return True
+            return None
         if isinstance(v, SliceSpecV):
             return cname in v.classes
         if isinstance(v, (IntV, BoolV, KeyV, StrV, NoneV, RealV)):
@@ -1644,6 +1652,8 @@ class Engine:
             if isinstance(x, BuiltinV) and x.name in ('str', 'int', 'tuple', 'list', 'dict', 'slice', 'bytes',
                                                       'set', 'float', 'bool', 'object', 'range', 'zip'):
                 x = ClassV(x.name)
+            if isinstance(x, BuiltinV) and x.name in ('typing.Iterable', 'collections.abc.Iterable'):
+                x = ClassV('Iterable')
             if not isinstance(x, ClassV):
                 raise Unsupported('isinstance against %r' % (x,))
             r = self.isinstance_kind(v, x.name, st)
